@@ -80,6 +80,37 @@ QSinCos(t) ==
 
 Within(a, b, tol) == ZLe(ZAbs(ZSub(a, b)), tol)
 
+\* floor(sqrt(v)) of a non-negative integer by Newton's iteration on integers
+ZISqrt(v) ==
+  LET RECURSIVE N(_)
+      N(x) == LET y == ZFloorShr(ZAdd(x, ZFloorDiv(v, x)), 1) IN IF ZLt(y, x) THEN N(y) ELSE x
+  IN IF ZIsZero(v) THEN Z0 ELSE N(ZPow2((ZBitLen(v) + 1) \div 2 + 1))
+QSqrt(x) == ZISqrt(ZShl(x, QP))                                                   \* sqrt of a Q number
+
+(* growth: the constants of src/consts.rs, each within one unit in the last place of its reference value *)
+QInt(n) == ZShl(ZI(n), QP)
+ConstRef(name) ==
+  LET tau == ZShl(QPi, 1)  ln10 == QLn(QInt(10)) IN
+  CASE name = "TAU" -> tau
+    [] name = "FRAC_TAU_2" -> QPi              [] name = "FRAC_TAU_3" -> QDivI(tau, 3)
+    [] name = "FRAC_TAU_4" -> QDivI(tau, 4)    [] name = "FRAC_TAU_6" -> QDivI(tau, 6)
+    [] name = "FRAC_TAU_8" -> QDivI(tau, 8)    [] name = "FRAC_TAU_12" -> QDivI(tau, 12)
+    [] name = "FRAC_1_TAU" -> QDiv(QOne, tau)  [] name = "FRAC_2_TAU" -> QDiv(QInt(2), tau)
+    [] name = "FRAC_4_TAU" -> QDiv(QInt(4), tau)
+    [] name = "PI" -> QPi
+    [] name = "FRAC_PI_2" -> QDivI(QPi, 2)     [] name = "FRAC_PI_3" -> QDivI(QPi, 3)
+    [] name = "FRAC_PI_4" -> QDivI(QPi, 4)     [] name = "FRAC_PI_6" -> QDivI(QPi, 6)
+    [] name = "FRAC_PI_8" -> QDivI(QPi, 8)
+    [] name = "FRAC_1_PI" -> QDiv(QOne, QPi)   [] name = "FRAC_2_PI" -> QDiv(QInt(2), QPi)
+    [] name = "FRAC_2_SQRT_PI" -> QDiv(QInt(2), QSqrt(QPi))
+    [] name = "SQRT_2" -> QSqrt(QInt(2))       [] name = "FRAC_1_SQRT_2" -> QDiv(QOne, QSqrt(QInt(2)))
+    [] name = "E" -> QExp(QOne)
+    [] name = "LOG2_10" -> QDiv(ln10, QLn2)    [] name = "LOG2_E" -> QDiv(QOne, QLn2)
+    [] name = "LOG10_2" -> QDiv(QLn2, ln10)    [] name = "LOG10_E" -> QDiv(QOne, ln10)
+    [] name = "LN_2" -> QLn2                   [] name = "LN_10" -> ln10
+AcceptConst(e) ==
+  LET r == ConstRef(e.name) IN Within(QOfFix(ZJ(e.a), LF(e.L)), r, ZAdd(ZPow2(QP - LF(e.L)), Slack(r)))
+
 (* ------------------------------ per-function acceptance ----------------- *)
 MOk(e)     == e.r[1] = 0
 MErr(e)    == e.r[1] = 1
